@@ -1,6 +1,6 @@
 // C13 correspondence harness: Thread start/join, parallel_for, ThreadGroup, parallel_invoke, Semaphore, Condition.
 //   pfrow <i0> <nth> <lo> <hi>        parallel_for(i0, i1, f, nth) for every i1 in [lo,hi]: which indices ran, how often, grouped by thread
-//   thr <kind> <n> <reps>              kind: sub lam grp inv cpy cpd cpj reap  -> ran counts and finished() after join, worst over reps
+//   thr <kind> <n> <reps>              kind: sub lam sst grp inv cpy cpd cpj reap  -> ran counts and finished() after join, worst over reps
 //   sem <ops>                          p = post, w = trywait  (single thread)  -> successes and final value
 //   semc <prod> <cons> <k>             concurrent posts and blocking waits, all must return
 //   cond <waiters> <reps>              documented condition-variable protocol, every waiter must return
@@ -79,6 +79,14 @@ static std::string thrOnce(const std::string& kind, int n)
 		for (int i = 0; i < n; i++) { ts.push_back(new Thread([r, i]() { __sync_add_and_fetch(r + i, 1); })); jitter(); }
 		for (int i = 0; i < n; i++) { ts[i]->join(); fin[i] = ts[i]->finished() ? 1 : 0; }
 		for (int i = 0; i < n; i++) delete ts[i];
+	}
+	else if (kind == "sst") {
+		// static start(f, &t): the returned object holds the handle ("copying a Thread transfers the handle"); join through it,
+		// then finished() must be true through the returned object AND through the object that was handed in (shared flag)
+		std::vector<Thread*> ts, rs;
+		for (int i = 0; i < n; i++) { ts.push_back(new Thread); rs.push_back(new Thread(Thread::start([r, i]() { jitter(); __sync_add_and_fetch(r + i, 1); }, ts[i]))); jitter(); }
+		for (int i = 0; i < n; i++) { rs[i]->join(); fin[i] = (rs[i]->finished() && ts[i]->finished()) ? 1 : 0; }
+		for (int i = 0; i < n; i++) { delete rs[i]; delete ts[i]; }
 	}
 	else if (kind == "cpy") {
 		// a running function thread is copied (the copy takes over the handle); join and finished() through the copy
